@@ -137,6 +137,7 @@ def gen_case(rng, i):
         case["schema_state"] = rng.choice(["default", "default", "default", "custom", "custom", "absent", "broken"])
         case["require"] = rng.choice([None, True, False]) if case["schema_state"] in ("absent", "broken") else rng.choice([None, None, True, False])
     case["schema"] = sch
+    case["schema_symlink"] = tkind.startswith("file") and rng.random() < 0.35
     # data: start valid, split over levels, then break at one place (or not)
     base = gen_data(rng, sch) if tkind not in ("testify", "matryer") else {k: value_for(v["type"], rng) for k, v in sch["properties"].items() if rng.random() < 0.4 and k != "boilerplate-file"}
     levels = {l: {} for l in LEVELS}
@@ -213,10 +214,19 @@ def eval_single(ctx, case):
         cfg["template"] = tref
         st = case["schema_state"]
         sch_text = json.dumps(case["schema"])
+        def put_schema(name):
+            # for file:// templates the schema may be a symbolic link to a file kept elsewhere (one schema shared by several templates)
+            if case.get("schema_symlink") and tk.startswith("file"):
+                real = os.path.join(root, "shared-schemas", name)
+                os.makedirs(os.path.dirname(real), exist_ok=True)
+                open(real, "w").write(sch_text)
+                os.symlink(real, os.path.join(tdir, name))
+            else:
+                open(os.path.join(tdir, name), "w").write(sch_text)
         if st == "default":
-            open(os.path.join(tdir, "probe.templ.schema.json"), "w").write(sch_text)
+            put_schema("probe.templ.schema.json")
         elif st == "custom":
-            open(os.path.join(tdir, "other-place.json"), "w").write(sch_text)
+            put_schema("other-place.json")
             # a decoy at the default location that accepts nothing useful: if it were used, conforming data would fail
             open(os.path.join(tdir, "probe.templ.schema.json"), "w").write(json.dumps({"type": "object", "required": ["decoy-key-never-set"]}))
             cfg["template-schema"] = tref.rsplit("/", 1)[0] + "/other-place.json"
@@ -269,7 +279,7 @@ def eval_single(ctx, case):
         return Verdict.inconclusive("watchdog")
     outp = os.path.join(root, "out/pa/m.go")
     written = os.path.exists(outp)
-    tags = ["template=" + tk, "schema=" + st, "model=" + ("accept" if accept else "reject")] + (["broke=%s/%s" % tuple(case["broke"])] if case.get("broke") else [])
+    tags = ["template=" + tk, "schema=" + st + ("-via-symlink" if case.get("schema_symlink") and tk.startswith("file") else ""), "model=" + ("accept" if accept else "reject")] + (["broke=%s/%s" % tuple(case["broke"])] if case.get("broke") else [])
     obs = {"exit": r.exit, "written": written, "model": why, "config": cfg, "schema": case["schema"]}
     if r.panicked:
         return Verdict.violated("mockery crashed", dict(obs, **r.brief()), tags)
@@ -403,6 +413,16 @@ def body(ctx, replay=None):
             n, m = (90, 16) if ctx.tier == "quick" else (900, 120)
             cases = [gen_case(ctx.rng, i) for i in range(n)] + [gen_shared_case(ctx.rng, 10000 + i) for i in range(m)]
             cases += [gen_require_case(ctx.rng, 20000 + i) for i in range(2 * m)]
+            # fixed witnesses: file:// templates whose schema (default and custom location) is a symbolic link, conforming and violating data
+            for j2, (tkd, stt, brk) in enumerate((a, b, c) for a in ("file-rel", "file-abs") for b in ("default", "custom") for c in ("none", "ifaceB")):
+                sch = {"type": "object", "properties": {"level": {"type": "integer"}, "name": {"type": "string"}}, "required": ["name"], "additionalProperties": False}
+                lv = {l: {} for l in LEVELS}
+                lv["root"] = {"name": "n", "level": 3}
+                c = {"kind": "single", "i": 31000 + j2, "tkind": tkd, "seed": 11 + j2, "schema_state": stt, "schema": sch, "require": None, "schema_symlink": True, "levels": lv}
+                if brk != "none":
+                    lv[brk]["level"] = "three"
+                    c["broke"] = [brk, "wrong-type"]
+                cases.append(c)
             # fixed witnesses: built-in templates, require-template-schema-exists false at each level, data violating the built-in schema at each level (and conforming data)
             j = 0
             for t in ("testify", "matryer"):
